@@ -11,5 +11,5 @@ echo "demo WITHOUT patch: exit $(run_demo)"
 if ! git -C "$WT" apply "$D/patch.diff"; then echo "PATCH DOES NOT APPLY to HEAD"; exit 2; fi
 echo "demo WITH patch:    exit $(run_demo)"; tail -3 /tmp/cs_demo.log | cut -c1-200
 for ID in ${IDS//,/ }; do
-  (cd /verif && RESONAATE_SRC="$WT/src" VERIF_SEED=${SEED:-0} ./check "$ID" ${TIER:-quick} > /tmp/cs_check.log 2>&1; echo "== check $ID exit=$?"; grep "^VIOLATION\|^\[" /tmp/cs_check.log | cut -c1-330 | tail -4)
+  (cd /verif && VERIF_OUT="$WT/out/verif_out" RESONAATE_SRC="$WT/src" VERIF_SEED=${SEED:-0} ./check "$ID" ${TIER:-quick} > /tmp/cs_check.log 2>&1; echo "== check $ID exit=$?"; grep "^VIOLATION\|^\[" /tmp/cs_check.log | cut -c1-330 | tail -4)
 done
